@@ -49,6 +49,7 @@ from harness.lib_states import KINDS as CONTAINERS, pack
 LEAN = {
     'C01': ['MlModel.Properties.C01.History'],
     'C11': ['MlModel.Properties.C11.MergeStates', 'MlModel.Properties.C11.ClassificationMergeStates',
+            'MlModel.Properties.C11.TextMergeStates', 'MlModel.Properties.C11.RetrievalMergeStates',
             'MlModel.Witness.C11MergeStates', 'MlModel.Properties.C11.History'],
 }
 
